@@ -509,3 +509,32 @@ pub fn par_map<T: Sync, R: Send>(items: &[T], f: impl Fn(&T) -> R + Sync + Send)
     use rayon::prelude::*;
     items.par_iter().map(f).collect()
 }
+
+/// Token sequence of a Rust source text, with a `,` that directly precedes a closing delimiter
+/// dropped (pretty-printers add/remove trailing commas by layout; that is not a change of program).
+pub fn norm_tokens(text: &str) -> Result<Vec<String>, String> {
+    fn walk(ts: proc_macro2::TokenStream, out: &mut Vec<String>) {
+        let toks: Vec<proc_macro2::TokenTree> = ts.into_iter().collect();
+        for (i, t) in toks.iter().enumerate() {
+            match t {
+                proc_macro2::TokenTree::Group(g) => {
+                    let (o, c) = match g.delimiter() {
+                        proc_macro2::Delimiter::Parenthesis => ("(", ")"),
+                        proc_macro2::Delimiter::Brace => ("{", "}"),
+                        proc_macro2::Delimiter::Bracket => ("[", "]"),
+                        proc_macro2::Delimiter::None => ("", ""),
+                    };
+                    out.push(o.to_string());
+                    walk(g.stream(), out);
+                    out.push(c.to_string());
+                }
+                proc_macro2::TokenTree::Punct(p) if p.as_char() == ',' && i + 1 == toks.len() => {}
+                other => out.push(other.to_string()),
+            }
+        }
+    }
+    let ts: proc_macro2::TokenStream = text.parse().map_err(|e| format!("not tokenisable: {e}"))?;
+    let mut out = vec![];
+    walk(ts, &mut out);
+    Ok(out)
+}
